@@ -298,6 +298,74 @@ def info (s : St α V) : EInfo := s.info
 
 end model
 
+/-! ### the object: members `compute()` reads, setters, histories
+
+  `LOBPCGSolver` keeps `A` (constant after construction), `m_B` + `flag_with_B`, `m_preconditioner` + `flag_with_preconditioner`
+  and the mutable state `St` (the block `X` — the constructor's copy of `X0`, overwritten by every `compute()` —, `m_residuals`,
+  `m_evectors`, `m_evalues`, `m_info`).  The setters only store their argument and raise the flag.  `compute()` runs with the
+  operators the object holds AT THE TIME OF THE CALL and starts from the state the previous call left.
+  (`setConstraints` / `m_Y` is not modelled: outside C17's quantifier.) -/
+structure Obj (α V : Type) where
+  A : V → V
+  /-- `flag_with_B ? some (m_B *) : none` -/
+  B : Option (V → V)
+  /-- `flag_with_preconditioner ? some (m_preconditioner *) : none` -/
+  T : Option (V → V)
+  st : St α V
+
+section obj
+variable {α V : Type}
+
+/-- `LOBPCGSolver(A, X)` -/
+def Obj.ctor (A : V → V) (X0 : List V) : Obj α V := { A := A, B := none, T := none, st := construct X0 }
+/-- `setB(B)`: `m_B = B; flag_with_B = true;` -/
+def Obj.setB (o : Obj α V) (b : V → V) : Obj α V := { o with B := some b }
+/-- `setPreconditioner(T)`: `m_preconditioner = T; flag_with_preconditioner = true;` -/
+def Obj.setPreconditioner (o : Obj α V) (t : V → V) : Obj α V := { o with T := some t }
+/-- an object that has never computed: block `X`, operators as given -/
+def Obj.fresh (A : V → V) (X : List V) (B T : Option (V → V)) : Obj α V := { A := A, B := B, T := T, st := construct X }
+
+/-- the kernel record one `compute()` call runs with: the three operators are the object's CURRENT members (identity where the
+    flag is down), the numeric kernels (`orthogonalizeInPlace`, the eigen-solvers, the tests) come from `N` -/
+def Obj.kern (N : Kern α V) (o : Obj α V) : Kern α V :=
+  { N with applyA := o.A, applyB := o.B.getD id, applyT := o.T.getD id }
+
+variable [Add V] [Sub V] [SMul α V]
+
+/-- everything one `compute(maxit, tol_div_n)` call on the object produces -/
+def Obj.computeOut (N : Kern α V) (c : Cfg) (maxit : Int) (tol : α) (o : Obj α V) : Out α V :=
+  compute (o.kern N) c maxit tol o.st
+/-- the object after the call (the operators are not touched) -/
+def Obj.compute (N : Kern α V) (c : Cfg) (maxit : Int) (tol : α) (o : Obj α V) : Obj α V :=
+  { o with st := (o.computeOut N c maxit tol).s }
+
+/-- one public call (every `compute` with its own numeric kernels: in the driver these are the outputs recorded from that call) -/
+inductive Op (α V : Type) where
+  | setB (b : V → V)
+  | setPreconditioner (t : V → V)
+  | compute (N : Kern α V) (maxit : Int) (tol : α)
+
+def Obj.apply (c : Cfg) (o : Obj α V) : Op α V → Obj α V
+  | .setB b => o.setB b
+  | .setPreconditioner t => o.setPreconditioner t
+  | .compute N maxit tol => o.compute N c maxit tol
+
+/-- a history of public calls on ONE object -/
+def Obj.run (c : Cfg) (o : Obj α V) (ops : List (Op α V)) : Obj α V := ops.foldl (Obj.apply c) o
+
+/-- the argument of the last `setB` of a history (`b0` if there was none) -/
+def lastB (b0 : Option (V → V)) : List (Op α V) → Option (V → V)
+  | [] => b0
+  | .setB b :: ops => lastB (some b) ops
+  | _ :: ops => lastB b0 ops
+/-- the argument of the last `setPreconditioner` of a history -/
+def lastT (t0 : Option (V → V)) : List (Op α V) → Option (V → V)
+  | [] => t0
+  | .setPreconditioner t :: ops => lastT (some t) ops
+  | _ :: ops => lastT t0 ops
+
+end obj
+
 /-! ### executable column type: an array of scalars with Eigen's coefficient-wise operations -/
 structure Col (α : Type) where
   d : Array α
